@@ -1,5 +1,11 @@
-(* C20 -- branches resolve by line number, independent of layout (statements grow with Proofs/Reloc.v). *)
-From BL Require Import Base.Prelude Mach.Val Mach.Compile.
+(* C20 -- branches resolve by line number, independent of program layout.
+   Proved (Proofs/Reloc.v): appending a fragment places its code unchanged behind the existing code and leaves that code
+   alone; linking patches every recorded reference whose symbol is defined with the address of that symbol, touches no
+   other instruction, and changes only the address operand; a line symbol records the address at which the line starts.
+   NOT proved: that the whole pipeline makes behaviour independent of inserted lines / splitting / direct-mode placement
+   (that is compiler correctness for control flow; decided by the C20 monitor, which runs every program in several layouts
+   and numberings and compares transcripts modulo the line-number map). *)
+From BL Require Import Base.Prelude Mach.Val Mach.Compile Proofs.Reloc.
 Local Open Scope N_scope.
 
 (* a line symbol always records the code address at which it was pushed, whatever precedes it *)
@@ -14,3 +20,39 @@ Proof.
     + destruct (Z.eqb_spec n k); [contradiction | exact IH].
 Qed.
 Print Assumptions C20_line_symbol_address.
+
+Theorem C20_append_places_code : forall f l l' i op, l_append f l = (l', Ok tt) -> nth_error (l_ops f) i = Some op ->
+  nthN (l_ops l') (lenN (l_ops l) + N.of_nat i) = Some op.
+Proof. exact append_places_code. Qed.
+Print Assumptions C20_append_places_code.
+
+Theorem C20_append_keeps_code : forall f l l' a, l_append f l = (l', Ok tt) -> a < lenN (l_ops l) ->
+  nthN (l_ops l') a = nthN (l_ops l) a.
+Proof. exact append_keeps_code. Qed.
+Print Assumptions C20_append_keeps_code.
+
+Theorem C20_link_is_fold : forall l,
+  let '(unl, werrs) := link_whiles_loop (l_whiles l) [] (l_syms l) (l_unlinked l) [] in
+  l_ops (fst (link_link l)) = fst (fold_left (lstep (l_syms l)) unl (l_ops l, werrs)).
+Proof. exact link_link_is_fold. Qed.
+Print Assumptions C20_link_is_fold.
+
+Theorem C20_link_patches : forall syms unl acc addr c sym dest op op',
+  NoDup (map fst unl) -> In (addr, (c, sym)) unl ->
+  zassoc_get sym syms = Some dest -> nthN (fst acc) addr = Some op -> patch_op op dest = Some op' ->
+  nthN (fst (fold_left (lstep syms) unl acc)) addr = Some op'.
+Proof. exact fold_patches. Qed.
+Print Assumptions C20_link_patches.
+
+Theorem C20_link_touches_nothing_else : forall syms unl acc a, ~ In a (map fst unl) ->
+  nthN (fst (fold_left (lstep syms) unl acc)) a = nthN (fst acc) a.
+Proof. exact fold_other. Qed.
+Print Assumptions C20_link_touches_nothing_else.
+
+Theorem C20_patch_changes_only_the_address : forall op dest op', patch_op op dest = Some op' ->
+  (exists a, op = OpIfNot a /\ op' = OpIfNot (fst dest)) \/ (exists a, op = OpJump a /\ op' = OpJump (fst dest))
+  \/ (exists a, op = OpLiteral (VRet a) /\ op' = OpLiteral (VRet (fst dest)))
+  \/ (exists a, op = OpLiteral (VNext a) /\ op' = OpLiteral (VNext (fst dest)))
+  \/ (exists a, op = OpRestore a /\ op' = OpRestore (snd dest)).
+Proof. exact patch_op_spec. Qed.
+Print Assumptions C20_patch_changes_only_the_address.
